@@ -73,8 +73,7 @@ func (i *Input) readFrom(r io.Reader, extended bool) (int64, error) {
 		return bytesRead, err
 	}
 
-	script := make([]byte, l)
-	n, err = io.ReadFull(r, script)
+	script, n, err := readBytes(r, uint64(l))
 	bytesRead += int64(n)
 	if err != nil {
 		return bytesRead, errors.Wrapf(err, "script(%d): got %d bytes", l, n)
@@ -110,8 +109,7 @@ func (i *Input) readFrom(r io.Reader, extended bool) (int64, error) {
 			return bytesRead, err
 		}
 
-		script := make([]byte, scriptLen)
-		n, err := io.ReadFull(r, script)
+		script, n, err := readBytes(r, uint64(scriptLen))
 		bytesRead += int64(n)
 		if err != nil {
 			return bytesRead, errors.Wrapf(err, "script(%d): got %d bytes", scriptLen.Length(), n)
